@@ -118,3 +118,36 @@ func init() {
 		return r
 	}, "errors.Unwrap", cr+"Unwrap")
 }
+
+func init() {
+	// util.IsObjectNil inspects its argument by reflection: model it on the executor's own values.
+	reg(func(it *Interp, fn *ssa.Function, args []Value, site ssa.Instruction) Value {
+		e, _ := args[0].(Iface)
+		if e.t == nil {
+			return false // reflect.ValueOf(nil).Kind() is Invalid
+		}
+		switch e.t.Underlying().(type) {
+		case *types.Pointer:
+			switch p := e.v.(type) {
+			case *Value:
+				return p == nil
+			case BytePtr:
+				return p.buf == nil
+			case nil:
+				return true
+			}
+			return false
+		case *types.Map:
+			m, _ := e.v.(*MapObj)
+			return m == nil
+		case *types.Chan:
+			c, _ := e.v.(*ChanObj)
+			return c == nil
+		case *types.Slice:
+			return isNilSlice(e.v)
+		case *types.Signature:
+			return e.v == nil
+		}
+		return false
+	}, "github.com/openGemini/openGemini/lib/util.IsObjectNil")
+}
